@@ -20,6 +20,8 @@ fi
 case $ID in
   C06|C07|C08|C14) PKG=lane ;;
   C19) PKG=c19 ;;
+  C03) PKG=c03 ;;
+  C13) PKG=c13 ;;
   C01) PKG=c01 ;;
   C05) PKG=c05 ;;
   C04) PKG=c04 ;;
